@@ -2469,3 +2469,91 @@ CATALOGUE['C20'] = [
       '    """Convert a sequence to an encoded string"""',
       '    """Convert a state sequence to its encoded text"""'),
 ]
+
+# --------------------------------------------------------------------- C16
+CATALOGUE['C16'] = [
+    V('variance-n without subtracting the squared mean', 'DT_InSV.py',
+      "            sumsq = sumsq / n - mean * mean",
+      "            sumsq = sumsq / n - mean", 'C16.R2'),
+    V('sample variance divides by n', 'DT_InSV.py',
+      "                sumsq = sumsq * n / (n - 1)",
+      "                sumsq = sumsq * n / n", 'C16.R2'),
+    V('sample variance without the n > 1 test', 'DT_InSV.py',
+      """            if count > 1:
+                sumsq = sumsq * n / (n - 1)""",
+      """            if count > 0:
+                sumsq = sumsq * n / (n - 1)""", 'C16.R2'),
+    V('mean divides by n - 1', 'DT_InSV.py',
+      "            mean = sum / n", "            mean = sum / (n - 1)",
+      'C16.R2'),
+    V('sum of squares accumulates the value', 'DT_InSV.py',
+      "                    sumsq = sumsq + s",
+      "                    sumsq = sumsq + item", 'C16.R1'),
+    V('sum updated before the square is computed', 'DT_InSV.py',
+      """                    if isinstance(item, int):
+                        s = item * int(item)
+                    else:
+                        s = item * item
+                    sum = sum + item
+""",
+      """                    sum = sum + item
+                    if isinstance(item, int):
+                        s = item * int(item)
+                    else:
+                        s = item * item
+""", 'C16.R1'),
+    V('maximum updated with <', 'DT_InSV.py',
+      """                        if item > max:
+                            max = item
+                except TypeError:""",
+      """                        if item < max:
+                            max = item
+                except TypeError:""", 'C16.R3'),
+    V('first value sets only the minimum', 'DT_InSV.py',
+      "                        min = max = item\n",
+      "                        min = item\n", 'C16.R3'),
+    V('odd median off by one', 'DT_InSV.py',
+      "data['median-%s' % name] = values[count // 2]",
+      "data['median-%s' % name] = values[count // 2 - 1]", 'C16.R4'),
+    V('even median takes the upper middle value twice', 'DT_InSV.py',
+      "                        middle = values[half] + values[half - 1]",
+      "                        middle = values[half] + values[half]",
+      'C16.R4'),
+    V('median floored for every type (the repaired defect)', 'DT_InSV.py',
+      """                        if isinstance(middle, int):
+                            # integer data keeps an integer median
+                            middle = middle // 2
+                        else:
+                            middle = middle / 2""",
+      """                        middle = middle // 2""", 'C16.R4'),
+    V('values not sorted before the median', 'DT_InSV.py',
+      "            values.sort()\n", "            pass\n", 'C16.R4'),
+    V('None recorded as a non-numeric value', 'DT_InSV.py',
+      "                    if item is not None and item is not mv:",
+      "                    if item is not mv:", 'C16.R5'),
+    # silent
+    V('silent: variance from the expanded formula', 'DT_InSV.py',
+      "            sumsq = sumsq / n - mean * mean",
+      "            sumsq = (sumsq * n - sum * sum) / (n * n)"),
+    V('silent: true division for every median', 'DT_InSV.py',
+      """                        if isinstance(middle, int):
+                            # integer data keeps an integer median
+                            middle = middle // 2
+                        else:
+                            middle = middle / 2""",
+      """                        middle = middle / 2"""),
+    V('silent: extremes via two independent tests', 'DT_InSV.py',
+      """                    if min is None:
+                        min = max = item
+                    else:
+                        if item < min:
+                            min = item
+                        if item > max:
+                            max = item
+                except TypeError:""",
+      """                    if min is None or item < min:
+                        min = item
+                    if max is None or item > max:
+                        max = item
+                except TypeError:"""),
+]
